@@ -494,4 +494,138 @@ theorem nextSep_le_exact (o : ROpts) (hr : ∀ r, o.rnd r = r) (hb : 0 ≤ o.bas
   have : 0 ≤ o.base / 10 := by positivity
   linarith
 
+/-! ### linesort -/
+
+/-- `P` holds for every pair of neighbours -/
+def Adj {β : Type} (P : β → β → Prop) : List β → Prop
+  | [] => True
+  | [_] => True
+  | a :: b :: rest => P a b ∧ Adj P (b :: rest)
+
+/-- what insertion guarantees for neighbours x (before) and y (after): x was put directly before y
+    because it compared less, or y did not compare less than x when it passed it -/
+def InsOk {β : Type} (cmp : β → β → Bool × Bool) (x y : β) : Prop :=
+  cmp x y = (true, true) ∨ cmp y x ≠ (true, true)
+
+theorem adj_cons {β : Type} {P : β → β → Prop} {a : β} {l : List β} (h : Adj P l)
+    (hh : ∀ b, l.head? = some b → P a b) : Adj P (a :: l) := by
+  cases l with
+  | nil => trivial
+  | cons b rest => exact ⟨hh b rfl, h⟩
+
+theorem adj_tail {β : Type} {P : β → β → Prop} {a : β} {l : List β} (h : Adj P (a :: l)) : Adj P l := by
+  cases l with
+  | nil => trivial
+  | cons b rest => exact h.2
+
+theorem head_insertBefore {β : Type} (cmp : β → β → Bool × Bool) (s : β) (l : List β) :
+    (insertBefore cmp s l).head? = some s ∨ ((insertBefore cmp s l).head? = l.head? ∧
+      ∃ c, l.head? = some c ∧ cmp s c ≠ (true, true)) := by
+  cases l with
+  | nil => left; rfl
+  | cons c rest =>
+    unfold insertBefore
+    by_cases h : cmp s c = (true, true)
+    · left; simp [h]
+    · right; simp [h]
+
+theorem adj_insertBefore {β : Type} (cmp : β → β → Bool × Bool) (s : β) :
+    ∀ l : List β, Adj (InsOk cmp) l → Adj (InsOk cmp) (insertBefore cmp s l) := by
+  intro l
+  induction l with
+  | nil => intro _; trivial
+  | cons c rest ih =>
+    intro h
+    unfold insertBefore
+    by_cases hc : cmp s c = (true, true)
+    · simp only [hc, if_true]
+      exact ⟨Or.inl hc, h⟩
+    · simp only [hc, if_false]
+      apply adj_cons (ih (adj_tail h))
+      intro b hb
+      rcases head_insertBefore cmp s rest with hs | ⟨hsame, _⟩
+      · rw [hs] at hb
+        cases hb
+        exact Or.inr hc
+      · rw [hsame] at hb
+        cases rest with
+        | nil => cases hb
+        | cons r rest' =>
+          simp only [List.head?_cons, Option.some.injEq] at hb
+          subst hb
+          exact h.1
+
+theorem adj_linesortLoop {β : Type} (cmp : β → β → Bool × Bool) : ∀ (fuel : Nat) (orig res : List β) (sz d : Nat),
+    Adj (InsOk cmp) res → Adj (InsOk cmp) (linesortLoop cmp fuel orig res sz d) := by
+  intro fuel
+  induction fuel with
+  | zero => intro orig res sz d h; exact h
+  | succ n ih =>
+    intro orig res sz d h
+    cases orig with
+    | nil => exact h
+    | cons s rest =>
+      unfold linesortLoop
+      split
+      · exact ih _ _ _ _ (adj_insertBefore cmp s res h)
+      · exact ih _ _ _ _ h
+
+/-- a rule-decided comparison is antisymmetric -/
+theorem ruleCmp_antisymm (nd : Rat) (x y : RSeg) (h : ruleCmp nd x y = some true) : ruleCmp nd y x = some false := by
+  unfold ruleCmp at h ⊢
+  by_cases hp : x.pos = y.pos
+  · have n1 : ¬ (x.pos ≠ y.pos) := fun hne => hne hp
+    have n2 : ¬ (y.pos ≠ x.pos) := fun hne => hne hp.symm
+    rw [if_neg n1] at h; rw [if_neg n2]
+    dsimp only at h ⊢
+    by_cases hf : (((fixedOrder nd x).2 || (fixedOrder nd y).2) && decide ((fixedOrder nd x).1 ≠ (fixedOrder nd y).1)) = true
+    · have hf' : (((fixedOrder nd y).2 || (fixedOrder nd x).2) && decide ((fixedOrder nd y).1 ≠ (fixedOrder nd x).1)) = true := by
+        simp only [Bool.and_eq_true, Bool.or_eq_true, decide_eq_true_eq, ne_eq] at hf ⊢
+        exact ⟨hf.1.symm, fun e => hf.2 e.symm⟩
+      rw [if_pos hf] at h; rw [if_pos hf']
+      simp only [Option.some.injEq, decide_eq_true_eq, decide_eq_false_iff_not] at h ⊢
+      omega
+    · have hf' : ¬ ((((fixedOrder nd y).2 || (fixedOrder nd x).2) && decide ((fixedOrder nd y).1 ≠ (fixedOrder nd x).1)) = true) := by
+        intro hh; apply hf
+        simp only [Bool.and_eq_true, Bool.or_eq_true, decide_eq_true_eq, ne_eq] at hh ⊢
+        exact ⟨hh.1.symm, fun e => hh.2 e.symm⟩
+      rw [if_neg hf] at h; rw [if_neg hf']
+      by_cases ho : order x = order y
+      · have n3 : ¬ (order x ≠ order y) := fun hne => hne ho
+        rw [if_neg n3] at h; cases h
+      · have p3 : order x ≠ order y := ho
+        have p4 : order y ≠ order x := fun e => ho e.symm
+        rw [if_pos p3] at h; rw [if_pos p4]
+        simp only [Option.some.injEq, decide_eq_true_eq, decide_eq_false_iff_not] at h ⊢
+        omega
+  · have p1 : x.pos ≠ y.pos := hp
+    have p2 : y.pos ≠ x.pos := fun e => hp e.symm
+    rw [if_pos p1] at h; rw [if_pos p2]
+    simp only [Option.some.injEq, decide_eq_true_eq, decide_eq_false_iff_not] at h ⊢
+    linarith
+
+theorem orderViolation_none_of_adj (nd : Rat) : ∀ l : List RSeg,
+    Adj (fun x y => ruleCmp nd y x ≠ some true) l → orderViolation nd l = none := by
+  intro l
+  induction l with
+  | nil => intro _; rfl
+  | cons a rest ih =>
+    intro h
+    cases rest with
+    | nil => rfl
+    | cons b rest' =>
+      unfold orderViolation
+      simp only [h.1, if_false]
+      exact ih h.2
+
+theorem adj_mono {β : Type} {P Q : β → β → Prop} (hPQ : ∀ x y, P x y → Q x y) : ∀ l : List β, Adj P l → Adj Q l := by
+  intro l
+  induction l with
+  | nil => intro _; trivial
+  | cons a rest ih =>
+    intro h
+    cases rest with
+    | nil => trivial
+    | cons b rest' => exact ⟨hPQ _ _ h.1, ih h.2⟩
+
 end AdaptaVerif.Lemmas.NudgeRegion
